@@ -41,3 +41,24 @@ func DebugPaths(r *Run, rel, name string) {
 		}
 	}
 }
+
+// DebugLoops prints the number of validating loops per error-only function of a package.
+func DebugLoops(r *Run, rel string) {
+	for _, f := range r.P.SubjectFuncs(rel) {
+		if f.Parent() != nil || !errResultOnly(f) || len(allLoopHeads(f)) == 0 {
+			continue
+		}
+		fmt.Printf("%s: loops=%d validating=%d\n", f.Name(), len(allLoopHeads(f)), len(r.validatingLoops(f)))
+	}
+}
+
+// DebugLeaves prints phi leaves of the first argument of calls to name in f.
+func DebugLeaves(r *Run, rel, fn, callee string) {
+	f := r.P.Func(rel, fn)
+	ff := r.E.Facts(f, core.Ctx{})
+	for _, c := range r.callsIn(f, callee) {
+		for _, l := range phiLeaves(c.Common().Args[0]) {
+			fmt.Printf("leaf %T %s => %s\n", l, l.Name(), ff.TB.Of(l).String())
+		}
+	}
+}
